@@ -19,6 +19,7 @@ from ..rules import COMPOUND, kw, loop_body_calls, node_calls, own_calls, prov_a
 from ..witness import W
 
 CHUNK = "strax/chunk.py"
+UTILS = "strax/utils.py"
 PLUGIN = "strax/plugins/plugin.py"
 DOWN = "strax/plugins/down_chunking_plugin.py"
 CONTEXT = "strax/context.py"
@@ -52,6 +53,7 @@ def run(chk):
     r5_continuity(chk, repo)
     r6_time_fields(chk, repo)
     r7_independent_expectation(chk, repo)
+    r8_layout(chk, repo)
 
 
 # ------------------------------------------------------------------------------------ R1
@@ -559,12 +561,70 @@ def r7_independent_expectation(chk, repo):
                       site_text=f"{f.qualname}: `{norm(c)[:60]}` expectation independent of the object", site={"function": f.qualname, "call": nm, "object": norm(obj)[:60]})
     chk.floor("C12.R7", "label / dtype check call sites with an explicit expectation", n, 2)
 
+# ------------------------------------------------------------------------------------ R8
+def _sufficient(test):
+    """Conditions each of which alone makes `test` true (disjuncts of a top-level `or`)."""
+    if isinstance(test, ast.BoolOp) and isinstance(test.op, ast.Or):
+        out = []
+        for v in test.values:
+            out += _sufficient(v)
+        return out
+    return [test]
+
+
+def r8_layout(chk, repo):
+    chk.describe("C12.R8", "wherever a delivered array's dtype is compared with the declared one after remove_titles_from_dtype (which rebuilds both as packed), the memory layout (field offsets, itemsize) is compared as well: padded data written under a packed dtype cannot be read back")
+    R = "C12.R8"
+    sites = 0
+    for q, p in (("Chunk.__init__", CHUNK), ("Plugin._check_dtype", PLUGIN)):
+        f = repo.func(q, p)
+        cfg = cfg_of(f)
+        r = reaching(f)
+        canon = [c for c in calls_in(f.node) if (call_name(c) or "").split(".")[-1] == "remove_titles_from_dtype"]
+        if not canon:
+            # compares raw dtype objects: layout is part of numpy's dtype equality
+            chk.ok(R, f"{q}: compares dtype objects directly")
+            continue
+        sites += 1
+        found = False
+        for n in cfg.stmt_nodes():
+            if not isinstance(n.stmt, ast.Raise):
+                continue
+            for g in cfg.dominating_guards(n):
+                if g.test is None or g.polarity is not True or g.owner is not enclosing(n.stmt, (ast.If,)):
+                    continue
+                for cond in _sufficient(g.test):
+                    if not (isinstance(cond, ast.Compare) and len(cond.ops) == 1 and isinstance(cond.ops[0], ast.NotEq)):
+                        continue
+                    a, b = cond.left, cond.comparators[0]
+                    if not all(isinstance(x, ast.Call) and (call_name(x) or "").split(".")[-1] == "dtype_layout" and x.args for x in (a, b)):
+                        continue
+                    pa, pb = r.provenance(g, a.args[0]), r.provenance(g, b.args[0])
+                    delivered = lambda pv: ".dtype" in pv and ("self.data.dtype" in pv or any(t.endswith(".dtype") and not t.startswith("self.dtype") for t in pv))
+                    declared = lambda pv: "dtype" in pv or "call:self.dtype_for" in pv
+                    if (delivered(pa) and declared(pb) and not delivered(pb)) or (delivered(pb) and declared(pa) and not delivered(pa)):
+                        found = True
+        chk.check(found, R, f, stmt_of(canon[0]), f"{q} compares dtypes only after rebuilding both as packed: data with the declared fields but another memory layout (padding, explicit offsets) is accepted and stored under the declared dtype",
+                  site_text=f"{q}: raises when dtype_layout(delivered) != dtype_layout(declared)", site={"function": q, "rule": "layout compared"})
+    dl = repo.func("dtype_layout", UTILS) if repo.has_func("dtype_layout", UTILS) else None
+    if sites:
+        ok = dl is not None and any(isinstance(st, ast.Return) and "itemsize" in norm(st.value) and ("fields" in norm(st.value) or "offsets" in norm(st.value)) for st in walk_body(dl.node))
+        chk.check(ok, R, dl or "strax/utils.py", None, "dtype_layout does not describe field offsets and itemsize", site_text="dtype_layout: (offsets, itemsize)")
+
 
 WITNESSES = [
+    W("layout not compared in _check_dtype (the original defect)", "C12.R8", PLUGIN,
+      "if got != expect or strax.dtype_layout(x.dtype) != strax.dtype_layout(self.dtype_for(d)):", "if got != expect:"),
+    W("layout not compared in Chunk.__init__ (the original defect)", "C12.R8", CHUNK,
+      "if strax.dtype_layout(dtype) != strax.dtype_layout(self.data.dtype):", "if False:"),
+    W("layout of the declared dtype compared with itself", "C12.R8", CHUNK,
+      "if strax.dtype_layout(dtype) != strax.dtype_layout(self.data.dtype):", "if strax.dtype_layout(dtype) != strax.dtype_layout(dtype):"),
+    W("dtype_layout forgets the itemsize", "C12.R8", "strax/utils.py",
+      "return tuple(dtype.fields[name][1] for name in dtype.names or ()), dtype.itemsize", "return tuple(dtype.fields[name][1] for name in dtype.names or ())"),
     W("dtype compared field-wise through a dict (order forgotten)", "C12.R2", PLUGIN,
-      "if got != expect:\n            raise strax.PluginGaveWrongOutput(", "if dict(got.fields) != dict(expect.fields):\n            raise strax.PluginGaveWrongOutput("),
+      "if got != expect or strax.dtype_layout", "if dict(got.fields) != dict(expect.fields) or strax.dtype_layout"),
     W("dtype compared by names only", "C12.R2", PLUGIN,
-      "if got != expect:\n            raise strax.PluginGaveWrongOutput(", "if got.names != expect.names:\n            raise strax.PluginGaveWrongOutput("),
+      "if got != expect or strax.dtype_layout", "if got.names != expect.names or strax.dtype_layout"),
     W("chunk checked against its own label", "C12.R7", DOWN,
       "for d, v in _result.items():\n                    self._check_chunk(v, d)", "for d, v in _result.items():\n                    self._check_chunk(v, v.data_type)"),
     W("fix_output checks the chunk against its own label", "C12.R7", PLUGIN,
